@@ -70,6 +70,14 @@ CHECKS = {
          'close_idempotent, io_after_close_errors, io_never_foreign. Tie: op sequences over real children of every disposition (pty), fdspawn and '
          'SocketSpawn analogues, descriptor and zombie accounting through /proc after del + gc.collect().',
          'Timing assumption: a delivered fatal signal makes the child waitable within delayafterterminate.', '4/C10'),
+ 'C12': ('Theorems C12.* over the run-loop model (run.py:113-142 as a fuelled loop over the Expecter model, callbacks as an oracle): run_output_eq_consumed / '
+         'run_conserves (returned text [+ pending tail] = all data read, each piece once, for every fuel, table, oracle, stream, window), '
+         'each_occurrence_answered_once_in_order (run_trace: the calls are one expect history; log and sends = logOf of the reported indices), '
+         'logOf_indices, logOf_dispatch, dispatch_spec, list_events_keep_priority, run_stop_reason, chain_is_history (C01/C03 apply to run\'s calls), '
+         'run_exitstatus (over the life-cycle model). Tie: the real run() on a scripted spawn (same event tables / callback tables / streams through the '
+         'Lean model) + real pty children whose recorded reads are replayed through the model; direct oracles on output, responses, naive re-search, exit status.',
+         'Callbacks are an arbitrary oracle indexed by (callback, event_count); a diverging run is judged on every finite prefix (fuel). '
+         'Children are open-loop event streams: every theorem quantifies over all of them, which covers reactive children.', '4/C12'),
 }
 PENDING = {}
 for i in range(5, 21):
